@@ -93,6 +93,8 @@ def main(argv=None):
                    row["vc_violated_sat"], row["exceptions"], row["unsupported_paths"], row["solver_unknown"], row["solver_queries"], row["solver_s"], row["wall_s"])
             )
             sys.stdout.flush()
+            if st.get("harness_exc", 0):
+                harness_errors.append("%s %s: %d paths raised inside harness code: %s" % (hn, p, st["harness_exc"], [k for k in res["unsupported"] if k.startswith("HARNESS BUG")][:2]))
             if row["reached_assertion"] == 0:
                 harness_errors.append("%s %s: no path reached the assertion (vacuous)" % (hn, p))
             if share < h.min_conclusive_share:
@@ -110,9 +112,9 @@ def main(argv=None):
                         props = sorted(tagged)
                 if prop not in props:
                     continue
-                sig = "%s:%s" % (hn, h.signature(cex["values"], p, cex["detail"]))
+                sig = "%s:%s" % (hn, cex["sig"])
                 f = findings.setdefault(sig, {"harness": h, "params": p, "cexs": [], "count": 0})
-                f["count"] += 1
+                f["count"] = max(f["count"], res["sig_count"].get(cex["sig"], 1))
                 if len(f["cexs"]) < 3:
                     f["cexs"].append(cex)
 
